@@ -176,6 +176,10 @@ Hops(nd) ==
     [] nd.t = "http" -> 1 + Hops(nd.x)
     [] nd.t = "unify" -> Hops(nd.x) + Hops(nd.y)
     [] OTHER -> Hops(nd.x)
+RECURSIVE Weight(_)
+Weight(nd) == CASE nd.t = "mem" -> Cardinality(nd.s)
+                [] nd.t = "unify" -> Weight(nd.x) + Weight(nd.y)
+                [] OTHER -> Weight(nd.x)
 Expected(cfg) == ListAfter(View(cfg.node, cfg.kind), IF cfg.kind = "refs" THEN 0 ELSE cfg.a)
 
 \* ------------------------------------------------------------------------
@@ -216,25 +220,37 @@ Next == Start \/ Step \/ Finish
 Spec == [][Next]_vars /\ WF_vars(Next)
 
 \* ------------------------------------------------------------------------
-CallItems == Items(calls)
+\* The properties, as operators over a configuration c, the consumer calls cs so far, the
+\* number of page requests nr and the run state s (the trace specification evaluates them
+\* on recorded values), and as invariants of the run above.
 \* At termination the complete sequence was delivered - or an error was delivered last.
-PagingLossless == st = "done" => CallItems = Expected(cfg)
+LosslessOf(c, cs, s) == s = "done" => Items(cs) = Expected(c)
 \* While running / when declined: what was delivered is the beginning of the listing -
 \* unless an error is still to come (a unifier delivers what its healthy member has and
 \* then the other member's error: not a prefix, but never without the error).
-PrefixDelivered == (st \in {"run", "declined", "done"} /\ ~MayFail(cfg.node, cfg.kind)) => IsPrefix(CallItems, Expected(cfg))
-OnlyListed == \A p \in 1..Len(CallItems) : CallItems[p] \in ToSet(Expected(cfg))
-NoDuplicates == \A p, q \in 1..Len(CallItems) : p # q => CallItems[p] # CallItems[q]
-Ascending == \A p \in 1..Len(CallItems) - 1 : CallItems[p] < CallItems[p + 1]
-StrictlyAfterStart == \A p \in 1..Len(CallItems) : cfg.kind # "refs" => Pos(CallItems[p]) > cfg.a
+PrefixOf(c, cs, s) == (s \in {"run", "declined", "done"} /\ ~MayFail(c.node, c.kind)) => IsPrefix(Items(cs), Expected(c))
+OnlyListedOf(c, cs) == LET ci == Items(cs)  ex == ToSet(Expected(c)) IN \A p \in 1..Len(ci) : ci[p] \in ex
+AscendingOf(cs) == LET ci == Items(cs) IN \A p \in 1..Len(ci) - 1 : ci[p] < ci[p + 1]
+NoDuplicatesOf(cs) == LET ci == Items(cs) IN Cardinality(ToSet(ci)) = Len(ci)
+AfterStartOf(c, cs) == LET ci == Items(cs) IN \A p \in 1..Len(ci) : c.kind # "refs" => Pos(ci[p]) > c.a
 \* An error is delivered only when some layer has a reason to fail, and it is the last call.
-ErrorOnlyWithCause == st = "failed" => MayFail(cfg.node, cfg.kind) /\ calls[Len(calls)].e = "err"
-                                       /\ \A p \in 1..Len(calls) - 1 : calls[p].e = "item"
+ErrorCauseOf(c, cs, s) == s = "failed" => /\ MayFail(c.node, c.kind) /\ cs[Len(cs)].e = "err"
+                                          /\ \A p \in 1..Len(cs) - 1 : cs[p].e = "item"
+DeclinedAtKOf(c, cs, s) == s = "declined" => Len(cs) = c.k
+\* Every hop asks at most one page per item underneath plus one, per request of the hop above.
+BoundedOf(c, nr, s) == /\ s # "diverged"
+                       /\ nr <= (Weight(c.node) + 2) ^ Hops(c.node) * 2 + 2
+
+PagingLossless == LosslessOf(cfg, calls, st)
+PrefixDelivered == PrefixOf(cfg, calls, st)
+OnlyListed == OnlyListedOf(cfg, calls)
+Ascending == AscendingOf(calls)
+NoDuplicates == NoDuplicatesOf(calls)
+StrictlyAfterStart == AfterStartOf(cfg, calls)
+ErrorOnlyWithCause == ErrorCauseOf(cfg, calls, st)
+DeclinedAtK == DeclinedAtKOf(cfg, calls, st)
+BoundedRequests == BoundedOf(cfg, nreq, st)
 \* No call of the consumer (and no request) after it declined or after an error.
 StopsWhenDeclined == [][(st \in {"declined", "failed", "done"} => UNCHANGED <<calls, nreq, i>>)]_vars
-DeclinedAtK == st = "declined" => Len(calls) = cfg.k
-\* Every hop asks at most one page per item of its view plus one, per request of the hop above.
-BoundedRequests == /\ st # "diverged"
-                   /\ nreq <= (Cardinality(View(cfg.node, cfg.kind)) + 2) ^ Hops(cfg.node) * 2 + 2
 Terminates == <>(st \in {"declined", "failed", "done", "diverged"})
 =============================================================================
